@@ -550,6 +550,17 @@ def main(pid: str, run: t.Callable[[Check], None], level: str = "proof"):
     a = ap.parse_args()
     seed = int(os.environ.get("VERIF_SEED", "0") or 0)
     tier = a.tier if a.tier in ("quick", "thorough") else "quick"
+    if a.replay:
+        # a replay re-runs the (deterministic, seeded) check with the seed and tier recorded in the replay file;
+        # checks that support narrowing (e.g. C03: a single history) read chk.replay_file themselves
+        try:
+            rp = json.loads(pathlib.Path(a.replay).read_text())
+            seed = int(rp.get("seed", seed))
+            tier = rp.get("tier", tier)
+            print(f"[{pid}] replaying {a.replay}: seed={seed} tier={tier} key={rp.get('key')}")
+            print(json.dumps(rp.get("replay", rp.get("no_longer_checks")), indent=1)[:3000])
+        except Exception as e:  # noqa: BLE001
+            print(f"[{pid}] cannot read replay file: {e}")
     chk = Check(pid, tier, seed, level)
     chk.replay_file = a.replay
     try:
